@@ -7,7 +7,7 @@
 (* fix (the cache is filled once and never invalidated): TLC must reject it *)
 (* (negative control).                                                      *)
 (***************************************************************************)
-EXTENDS Naturals, Integers, FiniteSets
+EXTENDS PartialSVDOps
 CONSTANTS MaxCalls, MaxConv, V_Invalidate
 VARIABLES gen,        \* number of compute() calls so far (0 = none)
           nconv,      \* converged triplets of the most recent compute()
@@ -16,26 +16,25 @@ VARIABLES gen,        \* number of compute() calls so far (0 = none)
           lastRead,   \* what the last matrix_U/V call returned: [gen, cols, k] ; gen = 0 when nothing was read yet
           calls
 vars == <<gen, nconv, cacheGen, cacheCols, lastRead, calls>>
-Min(a, b) == IF a < b THEN a ELSE b
 
 Init == gen = 0 /\ nconv = 0 /\ cacheGen = 0 /\ cacheCols = 0 /\ lastRead = [gen |-> 0, at |-> 0, nc |-> 0, cols |-> 0, k |-> 0, ok |-> TRUE] /\ calls = 0
 
+\* the variables as one record: the transitions themselves are the SV_* operators of PartialSVDOps (shared with the
+\* behaviour generator MC_SVDSeq and with TraceAux)
+Rec == [gen |-> gen, nconv |-> nconv, cacheGen |-> cacheGen, cacheCols |-> cacheCols]
+Becomes(t) == gen' = t.gen /\ nconv' = t.nconv /\ cacheGen' = t.cacheGen /\ cacheCols' = t.cacheCols
+
 Compute(c) ==
     /\ calls < MaxCalls /\ c \in 0 .. MaxConv
-    /\ gen' = gen + 1 /\ nconv' = c /\ calls' = calls + 1
-    /\ IF V_Invalidate THEN cacheGen' = 0 /\ cacheCols' = 0 ELSE UNCHANGED <<cacheGen, cacheCols>>
-    /\ UNCHANGED lastRead
+    /\ Becomes(SV_Compute(Rec, c, V_Invalidate))
+    /\ calls' = calls + 1 /\ UNCHANGED lastRead
 
 \* matrix_U(k) / matrix_V(k): fill the cache if it is empty, then return leftCols(min(k, nconv)) of it;
 \* taking more columns than the cache holds is an index error (ok = FALSE)
 Read(k) ==
-    /\ calls < MaxCalls /\ gen > 0 /\ k \in 0 .. MaxConv + 1
-    /\ LET cg == IF cacheGen = 0 THEN gen ELSE cacheGen
-           cc == IF cacheGen = 0 THEN nconv ELSE cacheCols
-           want == Min(k, nconv)
-       IN /\ cacheGen' = cg /\ cacheCols' = cc
-          /\ lastRead' = [gen |-> cg, at |-> gen, nc |-> nconv, cols |-> Min(want, cc), k |-> k, ok |-> want <= cc]
-    /\ calls' = calls + 1 /\ UNCHANGED <<gen, nconv>>
+    /\ calls < MaxCalls /\ G_SV_Read(Rec) /\ k \in 0 .. MaxConv + 1
+    /\ Becomes(SV_ReadState(Rec)) /\ lastRead' = SV_ReadResult(Rec, k)
+    /\ calls' = calls + 1
 
 Next == (\E c \in 0 .. MaxConv : Compute(c)) \/ (\E k \in 0 .. MaxConv + 1 : Read(k))
 Spec == Init /\ [][Next]_vars
